@@ -1004,16 +1004,16 @@ pub fn check(prop: &str, tier: &str) -> i32 {
     });
     cov["scope"] = unit_scope(&units);
     // input dimension: the parallel solver with ONE worker over the bounded-exhaustive families (deterministic)
-    let dl = Some(Instant::now() + Duration::from_secs(cap_secs(if th { 600 } else { 12 })));
+    let dl = Some(Instant::now() + Duration::from_secs(cap_secs(if th { 600 } else if prop == "C04" { 10 } else { 12 })));
     let mut plans = crate::checks::par1_plans(th, crate::bnb::Mode::Plain, false);
     if prop == "C04" { let mut cut = crate::checks::par1_plans(th, crate::bnb::Mode::Cutoffs, false); for p in cut.iter_mut() { p.limit = Some(p.limit.unwrap_or(u64::MAX).min(if th { 2000 } else { 150 })); } plans.extend(cut); }
     let (a1, s1, c1) = crate::bnb::run_plans(&rep, &[prop], &plans, dl);
     cov["single_worker_part"] = crate::checks::par1_cov(&a1, s1, c1);
     // ALL interleavings (explicit-state search) on the smallest non-trivial instances
-    let (acov, aok, aexec, _) = all_part(&rep, prop, CutMode::None, false, false, 14.0, 600.0);
+    let (acov, aok, aexec, _) = all_part(&rep, prop, CutMode::None, false, false, if prop == "C04" { 10.0 } else { 14.0 }, 600.0);
     cov["all_interleavings_part"] = acov;
     let mut aok2 = true; let mut aexec2 = 0;
-    if prop == "C04" { let (acov2, ok2, ex2, _) = all_part(&rep, prop, CutMode::EveryPoll, false, false, 8.0, 400.0); cov["all_interleavings_with_cutoff_part"] = acov2; aok2 = ok2; aexec2 = ex2; }
+    if prop == "C04" { let (acov2, ok2, ex2, _) = all_part(&rep, prop, CutMode::EveryPoll, false, false, 6.0, 400.0); cov["all_interleavings_with_cutoff_part"] = acov2; aok2 = ok2; aexec2 = ex2; }
     cov["evaluations"] = json!(c.executions + a1.runs + a1.cut_runs + aexec + aexec2);
     cov["exhaustive"] = json!(c.complete && c1 && aok && aok2);
     rep.finish("model_checking", cov, assumptions())
@@ -1039,7 +1039,7 @@ pub fn c02_parallel_part(rep: &Reporter) -> (Value, bool) {
     units.retain(|u| u.run >= 2);
     if !th { units.retain(|u| u.run == 2); }
     units.extend(units_c05(th).into_iter().filter(|u| u.run == 2));
-    part(rep, "C02", units, 22.0, 900.0)
+    part(rep, "C02", units, 16.0, 900.0)
 }
 pub fn c05_parallel_part(rep: &Reporter) -> (Value, bool) { part(rep, "C05", units_c05(rep.thorough()), 30.0, 1200.0) }
 pub fn c09_parallel_part(rep: &Reporter) -> (Value, bool) { part(rep, "C09", units_c09(rep.thorough()), 25.0, 900.0) }
